@@ -169,3 +169,6 @@ k_process_array!(k_c02_process_array0, 0, |store, size| Value::Array0(Box::new(A
 k_process_array!(k_c02_process_array1, 1, |store, size| Value::Array1(Box::new(ArrayS::<1> { data: [7], value_id: no_handle(), size })));
 k_process_array!(k_c02_process_array2, 2, |store, size| Value::Array2(Box::new(ArrayS::<2> { data: [7, 9], value_id: no_handle(), size })));
 k_process_array!(k_c02_process_arrayn, 3, |store, size| Value::Array(Box::new(Array { data: vec![7u8, 9, 11].into_boxed_slice(), value_id: no_handle(), size })));
+
+// (tried and dropped: a harness on schema::Properties::{finalize,process} -- a Vec of two properties through into_iter().chain().map().collect()
+// makes CBMC run out of memory (> 60 GB); those two one-line adapter chains stay an assumption of C02)
